@@ -327,3 +327,29 @@ impl From<&KademliaPeer> for schema::kademlia::Peer {
         }
     }
 }
+
+#[cfg(litep2p_verif)]
+impl<T: Clone> Key<T> {
+    /// Build a key from chosen raw key bytes (verification hook).
+    pub fn verif_from_raw(bytes: [u8; 32], preimage: T) -> Key<T> {
+        Key {
+            preimage,
+            bytes: KeyBytes(Array::from(bytes)),
+        }
+    }
+
+    /// Raw key bytes (verification hook).
+    pub fn verif_raw(&self) -> [u8; 32] {
+        let mut out = [0u8; 32];
+        out.copy_from_slice(self.bytes.0.as_slice());
+        out
+    }
+}
+
+#[cfg(litep2p_verif)]
+impl Distance {
+    /// Big-endian bytes of the distance (verification hook).
+    pub fn verif_be_bytes(&self) -> [u8; 32] {
+        self.0.to_big_endian()
+    }
+}
